@@ -112,7 +112,7 @@ Print Assumptions C14_render_mono_dotted.
 
 (* ---- Proofs.CalverE2E ---- *)
 From Coq Require Import List Bool NArith ZArith Arith.
-From BV Require Import Lib.PyStr Lib.Decimal Lib.Calendar Model.V2 Model.Pep440 Model.Cli Model.Lexid Proofs.DottedFacts Proofs.CalverE2E.
+From BV Require Import Lib.PyStr Lib.Decimal Lib.Calendar Model.V2 Model.Pep440 Model.Cli Model.Lexid Proofs.DottedFacts Proofs.DottedJoinFacts Proofs.CalverE2E.
 Import ListNotations.
 (* calver_result_greater :
    forall (date : Z) (y m : N) (bid b' : list N), (1 <= m <= 12)%N -> all_digits bid = true -> bid <> [] -> bump_bid bid = Some b' -> ver_lt (cv y m bid) (calver_next y m b' date) = true *)
